@@ -113,4 +113,62 @@ def resurrected (prev cur : String) (seen : List String) : List String :=
 def allNames (dump : String) : List String :=
   namesOf dump "codes" ++ namesOf dump "access" ++ namesOf dump "refresh" ++ namesOf dump "device" ++ namesOf dump "par"
 
+/-! ### C19, op "par": several requests interleaved at storage-call granularity
+
+  "every token handed to a caller is either active or was invalidated by one of the concurrent requests, and
+  token generation never returns the same value twice" — judged on the observation of one `par` operation:
+  per-thread outcomes, the call log with thread tags `t<i>:`, the store dump afterwards. -/
+
+/-- "t3:name(a,b)=res" ↦ (thread, name, args, res) -/
+def parseTagged (e : String) : Nat × String × List String × String :=
+  let (tag, rest) := match e.splitOn ":" with
+    | t :: r => (t, ":".intercalate r)
+    | [] => ("", e)
+  let thr := (tag.drop 1).toString.toNat?.getD 0
+  let name := (rest.splitOn "(").headD rest
+  let inner := ((rest.splitOn "(").getD 1 "").splitOn ")" |>.headD ""
+  let res := (rest.splitOn "=").getLast?.getD ""
+  (thr, name, inner.splitOn ",", res)
+
+def parHits (obs : String) : List String :=
+  let ss := segs obs
+  let outs := ((ss.headD "").drop 4).toString.splitOn " ;; "
+  let calls := (((ss.getD 1 "").splitOn " ").filter (· != "")).map parseTagged
+  let dump := ss.getD 2 ""
+  let accessLive := namesOf dump "access"
+  let refreshLive := ((flagged dump "refresh").filter (·.2)).map (·.1)
+  -- position, thread and request id of the call that created a token
+  let created (kind tok : String) : Option (Nat × Nat × String) :=
+    ((List.range calls.length).zip calls).findSome? (fun (k, (t, name, args, res)) =>
+      if name == kind && res == "ok" && args.headD "" == tok then some (k, t, args.getLast?.getD "") else none)
+  let removedByOther (i pos : Nat) (tok gid : String) (isAccess : Bool) : Bool :=
+    ((List.range calls.length).zip calls).any (fun (k, (t, name, args, res)) =>
+      k > pos && t != i && res == "ok" &&
+        ((name == (if isAccess then "deleteAccess" else "deleteRefresh") && args.headD "" == tok) ||
+         (name == (if isAccess then "revokeAccess" else "revokeRefresh") && args.headD "" == gid) ||
+         (name == "rotateRefresh" && args.headD "" == gid)))
+  let perThread := ((List.range outs.length).zip outs).flatMap (fun (i, o) =>
+    let k := outKind o
+    (if k == "panic" then ["C19:panic-in-concurrent-request"] else []) ++
+    (if k == "tokens" || k == "authz" then
+      let atk := outField o "at"
+      let rt := outField o "rt"
+      (if atk != "?" && atk != "" && !accessLive.contains atk then
+        match created "createAccess" atk with
+        | some (pos, _, gid) => if removedByOther i pos atk gid true then [] else ["C19:handed-access-token-gone-without-another-request-removing-it"]
+        | none => ["C19:handed-access-token-never-stored"]
+       else []) ++
+      (if k == "tokens" && rt != "?" && rt != "" && !refreshLive.contains rt then
+        match created "createRefresh" rt with
+        | some (pos, _, gid) => if removedByOther i pos rt gid false then [] else ["C19:handed-refresh-token-dead-without-another-request-killing-it"]
+        | none => ["C19:handed-refresh-token-never-stored"]
+       else [])
+     else []))
+  -- token generation never returns the same value twice
+  let minted := calls.filterMap (fun (_, name, args, res) =>
+    if res == "ok" && (name == "createCode" || name == "createAccess" || name == "createRefresh" || name == "createPAR" || name == "createDevice")
+    then some (name ++ ":" ++ args.headD "") else none)
+  let dup := if minted.eraseDups.length != minted.length then ["C19:minted-value-repeated"] else []
+  (perThread ++ dup).eraseDups
+
 end Fosite.Spec.MonitorTx
